@@ -19,7 +19,14 @@
 #include <string.h>
 #include <stdlib.h>
 
+/* diagnostics of the code under test must not reach the protocol stream (stdout) */
+static int c07_sink_printf(const char *fmt, ...) { (void) fmt; return 0; }
+static int c07_sink_puts(const char *s) { (void) s; return 0; }
+#define printf c07_sink_printf
+#define puts c07_sink_puts
 #include RFCH_C
+#undef printf
+#undef puts
 
 struct l1s_state l1s;
 
